@@ -22,18 +22,21 @@
 package main
 
 import (
+	"bufio"
 	"context"
 	_ "crypto/sha256"
 	_ "crypto/sha512"
 	"encoding/json"
 	"fmt"
 	"os"
+	"os/exec"
 	"path/filepath"
 	"sort"
 	"strconv"
 	"strings"
 	"sync"
 	"syscall"
+	"time"
 
 	"oras.land/oras-go/v2/content/oci"
 	"verifharness/common"
@@ -1387,6 +1390,153 @@ func deletedAfterLastSave(sc *ck.Script, id int) bool {
 	return false
 }
 
+// ---------- concurrent callers (C10_conc_crash_safe): oracle-only stress stream ----------
+// The kill-at-k machinery follows ONE thread; here several goroutines run Push/Tag/Untag/
+// SaveIndex concurrently and the whole process is killed at an arbitrary moment.  The model
+// is not compared (the schedule is not observable); the oracle checks what the theorem
+// states: layout, blobs, index entries, reopen, nothing stored before is lost, and every
+// reference on disk comes from before or from one of the concurrent Tags.
+func runConc(r *common.Rand, delayUS int, rp map[string]string) {
+	sc := &ck.Script{Blobs: universe(r, false)}
+	if rp != nil {
+		var err error
+		sc, err = ck.ParseScript([]byte(rp["script"]))
+		if err != nil {
+			panic(err)
+		}
+	} else {
+		s := newSim()
+		sc.History = genHistory(r, sc, s, r.Intn(5))
+		n := 2 + r.Intn(3)
+		for g := 0; g < n; g++ {
+			var ops []ck.Op
+			for i := 0; i < 1+r.Intn(3); i++ {
+				switch r.Intn(5) {
+				case 0, 1:
+					ops = append(ops, ck.Op{Kind: "push", Blob: common.Pick(r, []int{1, 2, 3, 4, 5, 6, 1001, 1002, 2001})})
+				case 2, 3:
+					ops = append(ops, ck.Op{Kind: "tag", Blob: common.Pick(r, []int{4, 5, 6, 1002, 1}), Ref: 1 + r.Intn(3)})
+				default:
+					if r.Bool() {
+						ops = append(ops, ck.Op{Kind: "untag", Ref: 1 + r.Intn(3)})
+					} else {
+						ops = append(ops, ck.Op{Kind: "saveindex"})
+					}
+				}
+			}
+			sc.Conc = append(sc.Conc, ops)
+		}
+	}
+	before := newSim()
+	for _, o := range sc.History {
+		before.apply(o)
+	}
+	dir, err := os.MkdirTemp(work, "conc")
+	if err != nil {
+		panic(err)
+	}
+	defer os.RemoveAll(dir)
+	root := filepath.Join(dir, "root")
+	os.Mkdir(root, 0o755)
+	scriptPath := filepath.Join(dir, "script.json")
+	os.WriteFile(scriptPath, []byte(sc.JSON()), 0o644)
+	cmd := exec.Command(exe, "conc", root, scriptPath)
+	out, err := cmd.StdoutPipe()
+	if err != nil {
+		panic(err)
+	}
+	if err := cmd.Start(); err != nil {
+		panic(err)
+	}
+	rd := bufio.NewReader(out)
+	ready := make(chan bool, 1)
+	go func() {
+		for {
+			l, err := rd.ReadString('\n')
+			if strings.HasPrefix(l, "READY") {
+				ready <- true
+				return
+			}
+			if err != nil {
+				ready <- false
+				return
+			}
+		}
+	}()
+	select {
+	case ok := <-ready:
+		if !ok {
+			cmd.Process.Kill()
+			cmd.Wait()
+			run.Count("conc-child-not-ready")
+			return
+		}
+	case <-time.After(60 * time.Second):
+		cmd.Process.Kill()
+		cmd.Wait()
+		run.Count("conc-child-not-ready")
+		return
+	}
+	time.Sleep(time.Duration(delayUS) * time.Microsecond)
+	cmd.Process.Kill()
+	cmd.Wait()
+	run.Count("conc-kills")
+	id := run.NewID()
+	rep := map[string]any{"script": sc, "conc_delay_us": delayUS}
+	fail := func(sig, f string, a ...any) {
+		run.OracleFail(id, sig, fmt.Sprintf(f, a...)+fmt.Sprintf(" (concurrent callers, killed %d us after release)", delayUS), rep)
+	}
+	byHex := map[string]int{}
+	for _, b := range sc.Blobs {
+		byHex[b.Hex()] = b.ID
+	}
+	names, bad := ck.BlobFiles(root)
+	for _, b := range bad {
+		fail("conc-blob-corrupt", "blobs/%s does not hash to its name", b)
+	}
+	on := map[int]bool{}
+	for _, n := range names {
+		if id, ok := byHex[n]; ok {
+			on[id] = true
+		} else {
+			fail("conc-blob-corrupt", "blobs file %s is not a blob of the script", n)
+		}
+	}
+	for id := range before.blobs {
+		if !on[id] {
+			fail("conc-completed-lost", "blob %d stored before the concurrent calls is gone", id)
+		}
+	}
+	idx, status := ck.ReadRawIndex(root)
+	if status != "ok" {
+		fail("conc-index-unreadable", "index.json is %s", status)
+	} else {
+		tagged := map[string]bool{} // ref=blob pairs some concurrent Tag may have set
+		for _, ops := range sc.Conc {
+			for _, o := range ops {
+				if o.Kind == "tag" {
+					tagged[ck.RefName(o.Ref)+"="+sc.Blob(o.Blob).Digest()] = true
+				}
+			}
+		}
+		for rf, b := range before.tags {
+			tagged[ck.RefName(rf)+"="+sc.Blob(b).Digest()] = true
+		}
+		for _, m := range idx.Manifests {
+			if _, err := os.Stat(ck.BlobPath(root, m.Digest)); err != nil {
+				fail("conc-index-dangling", "index.json entry %s names a missing blob", m.Digest)
+			}
+			if rf, ok := m.Annotations["org.opencontainers.image.ref.name"]; ok && !tagged[rf+"="+m.Digest] {
+				fail("conc-tag-invented", "index.json has %s -> %s, which no Tag set", rf, m.Digest)
+			}
+		}
+	}
+	if _, err := oci.New(root); err != nil {
+		fail("conc-reopen-fails", "oci.New: %v", err)
+	}
+	run.Case(id, "C "+common.Hex(sc.JSON()), "CONC")
+}
+
 // ---------- main ----------
 
 func genHistory(r *common.Rand, sc *ck.Script, s *sim, n int) []ck.Op {
@@ -1466,6 +1616,16 @@ func replay(path string) {
 		if err != nil {
 			panic(err)
 		}
+		if len(sc.Conc) > 0 {
+			// timing is not reproducible: the same calls, killed at a spread of moments
+			d, _ := strconv.Atoi(c["conc_delay_us"])
+			for _, dd := range []int{d, d / 2, d * 2, 0, 500, 1500, 3000, 6000} {
+				for rep := 0; rep < 5; rep++ {
+					runConc(run.Rand, dd, c)
+				}
+			}
+			continue
+		}
 		k := -1
 		if v, ok := c["k"]; ok {
 			if n, err := strconv.Atoi(v); err == nil {
@@ -1479,6 +1639,9 @@ func replay(path string) {
 func main() {
 	if len(os.Args) >= 4 && os.Args[1] == "child" {
 		os.Exit(ck.ChildMain(os.Args[2], os.Args[3]))
+	}
+	if len(os.Args) >= 4 && os.Args[1] == "conc" {
+		os.Exit(ck.ConcMain(os.Args[2], os.Args[3]))
 	}
 	run = common.Start("C10")
 	syscall.Umask(0o022)
@@ -1502,7 +1665,7 @@ func main() {
 		return
 	}
 	r := run.Rand
-	nHist := run.Scale(4, 40)
+	nHist := run.Scale(4, 30)
 	perHist := len(finalKinds)
 	ki := int(run.Seed) * 5
 	for h := 0; h < nHist; h++ {
@@ -1519,6 +1682,10 @@ func main() {
 			}
 			runGenerated(r, histLen, kind, big, run.Thorough(), crashes)
 		}
+	}
+	// concurrent callers, killed at an arbitrary moment
+	for i := 0; i < run.Scale(40, 400); i++ {
+		runConc(r, r.Intn(run.Scale(6000, 12000)), nil)
 	}
 	// AutoSaveIndex off: only SaveIndex writes index.json
 	for h := 0; h < run.Scale(1, 8); h++ {
@@ -1547,7 +1714,7 @@ func main() {
 		}()
 	}
 	// Delete with AutoGC (cascades), GC and reopen, on the universe with referrers
-	nGC := run.Scale(2, 24)
+	nGC := run.Scale(2, 18)
 	for h := 0; h < nGC; h++ {
 		for _, kind := range gcKinds {
 			sc := &ck.Script{Blobs: universeGC(r), AutoGC: !strings.HasPrefix(kind, "gc-") || r.Bool()}
@@ -1576,6 +1743,7 @@ func checkFloors() {
 	need("earlier-crashes", run.Scale(15, 150))
 	need("final:gc", run.Scale(4, 30))
 	need("final:init", 1)
+	need("conc-kills", run.Scale(30, 300))
 	need("autosave-off-scripts", run.Scale(8, 60))
 	need("final:reopen", run.Scale(3, 20))
 	need("composite-finals-with-cascade", run.Scale(2, 30))
